@@ -13,6 +13,7 @@ mod c01;
 mod c02;
 mod c03;
 mod c04;
+mod c05;
 mod c06;
 mod c07;
 mod c08;
@@ -93,6 +94,7 @@ fn main() {
         "C07" => c07::run(&mut ctx),
         "C08" => c08::run(&mut ctx),
         "C09" => c09::run(&mut ctx),
+        "C05" => c05::run(&mut ctx),
         "C06" => c06::run(&mut ctx),
         "C04" => c04::run(&mut ctx),
         "C10" => c10::run(&mut ctx),
